@@ -2,7 +2,10 @@ module verif
 
 go 1.26.8
 
-require github.com/influxdata/influxdb v0.0.0
+require (
+	github.com/influxdata/influxdb v0.0.0
+	github.com/influxdata/influxql v1.2.0
+)
 
 require (
 	github.com/apache/arrow/go/arrow v0.0.0-20211112161151-bc219186db40 // indirect
@@ -25,7 +28,6 @@ require (
 	github.com/hashicorp/raft v1.3.11 // indirect
 	github.com/hashicorp/raft-boltdb/v2 v2.2.2 // indirect
 	github.com/influxdata/flux v0.65.1 // indirect
-	github.com/influxdata/influxql v1.2.0 // indirect
 	github.com/influxdata/roaring v0.4.13-0.20180809181101-fc520f41fab6 // indirect
 	github.com/influxdata/tdigest v0.0.2-0.20210216194612-fc98d27c9e8b // indirect
 	github.com/jsternberg/zap-logfmt v1.2.0 // indirect
